@@ -249,6 +249,161 @@ def _check(ctx: Ctx) -> None:
                   function=fd.qualname, construct="the TIME_SIGNATURE event written by detokenise is not determined by the token's own fields on every path",
                   message=f"{bad_paths[:2]}: a value left over from an earlier token (or a default) is written as the signature in force", file=fd.file, node=ts_ctor)
 
+    # ---- SIGEMIT: *whether* the event is written.  The branch (the part that runs at a bar start) is interpreted over truth
+    # assignments to its atomic conditions: `state variable ? token field` comparisons (evaluated with the values in force at
+    # that statement -- after `cur = new` the two are equal), evenness tests, flags.  In every world in which the token's
+    # signature differs from the one in force the event is written; the state variables end up holding the token's fields; the
+    # halved form is written only under both evenness tests.
+    class _Undecided(Exception):
+        pass
+
+    def _sig_states(stmts, states, target):
+        import re as _re
+
+        def fork(st, **kw):
+            d = dict(st)
+            d["nz"] = Normaliser(env=dict(st["nz"].env), atom_hook=hook)
+            d["bools"] = dict(st["bools"])
+            d.update(kw)
+            return d
+
+        def atom(key, w):
+            if key in w:
+                return [(w[key], w)]
+            return [(True, {**w, key: True}), (False, {**w, key: False})]
+
+        def ev(t, st, w):
+            if isinstance(t, ast.Constant):
+                return [(bool(t.value), w)]
+            if isinstance(t, ast.UnaryOp) and isinstance(t.op, ast.Not):
+                return [(not b, w2) for b, w2 in ev(t.operand, st, w)]
+            if isinstance(t, ast.BoolOp):
+                is_and = isinstance(t.op, ast.And)
+                res = [(is_and, w)]
+                for v in t.values:
+                    nxt = []
+                    for b, w2 in res:
+                        if b != is_and:
+                            nxt.append((b, w2))            # short-circuited
+                        else:
+                            nxt += ev(v, st, w2)
+                    res = nxt
+                return res
+            if isinstance(t, ast.Name) and t.id in st["bools"]:
+                return [(st["bools"][t.id], w)]
+            if isinstance(t, ast.Compare) and len(t.ops) == 1:
+                op, l_, r_ = t.ops[0], t.left, t.comparators[0]
+                if isinstance(op, (ast.Eq, ast.NotEq)) and isinstance(l_, ast.BinOp) and isinstance(l_.op, ast.Mod) and isinstance(l_.right, ast.Constant) \
+                        and l_.right.value == 2 and isinstance(r_, ast.Constant) and r_.value in (0, 1):
+                    try:
+                        key = ("even", st["nz"].norm(l_.left).canon())
+                    except Exception:
+                        key = ("src", src(t))
+                    want_even = (r_.value == 0) == isinstance(op, ast.Eq)
+                    return [(b == want_even, w2) for b, w2 in atom(key, w)]
+                if isinstance(op, (ast.Eq, ast.NotEq)) and isinstance(l_, ast.Tuple) and isinstance(r_, ast.Tuple) and len(l_.elts) == len(r_.elts):
+                    conj = ast.BoolOp(op=ast.And(), values=[ast.Compare(left=x, ops=[ast.Eq()], comparators=[y]) for x, y in zip(l_.elts, r_.elts)])
+                    return [(b == isinstance(op, ast.Eq), w2) for b, w2 in ev(conj, st, w)]
+                if isinstance(op, (ast.Eq, ast.NotEq)):
+                    try:
+                        a_, b_ = st["nz"].norm(l_).canon(), st["nz"].norm(r_).canon()
+                    except Exception:
+                        return atom(("src", src(t)), w)
+                    if a_ == b_:
+                        return [(isinstance(op, ast.Eq), w)]
+                    return [(b == isinstance(op, ast.Eq), w2) for b, w2 in atom(("eq", frozenset((a_, b_))), w)]
+            return atom(("src", src(t)), w)
+
+        def has(n):
+            return any(x is target for x in ast.walk(n))
+        for s_ in stmts:
+            nxt = []
+            for st in states:
+                if st["done"]:
+                    nxt.append(st)
+                    continue
+                if isinstance(s_, ast.If):
+                    for b, w2 in ev(s_.test, st, st["world"]):
+                        sub = fork(st, world=w2)
+                        nxt += _sig_states(s_.body if b else s_.orelse, [sub], target)
+                elif has(s_):
+                    if isinstance(s_, (ast.For, ast.While, ast.Try, ast.With)):
+                        raise _Undecided(f"the event is written inside a `{type(s_).__name__.lower()}` statement")
+                    nxt.append(fork(st, reached=True, done=True, at=Normaliser(env=dict(st["nz"].env), atom_hook=hook)))
+                elif isinstance(s_, (ast.Continue, ast.Break, ast.Return, ast.Raise)):
+                    nxt.append(fork(st, done=True))
+                elif isinstance(s_, ast.Assign) and len(s_.targets) == 1 and isinstance(s_.targets[0], ast.Name) \
+                        and (isinstance(s_.value, (ast.BoolOp, ast.Compare)) or (isinstance(s_.value, ast.UnaryOp) and isinstance(s_.value.op, ast.Not))
+                             or (isinstance(s_.value, ast.Constant) and isinstance(s_.value.value, bool))):
+                    for b, w2 in ev(s_.value, st, st["world"]):
+                        nxt.append(fork(st, world=w2, bools={**st["bools"], s_.targets[0].id: b}))
+                elif isinstance(s_, (ast.Assign, ast.AugAssign)):
+                    try:
+                        st["nz"].run_block([s_])
+                    except Exception:
+                        pass
+                    for t_ in (s_.targets if isinstance(s_, ast.Assign) else [s_.target]):
+                        if isinstance(t_, ast.Name):
+                            st["bools"].pop(t_.id, None)
+                    nxt.append(st)
+                elif isinstance(s_, (ast.For, ast.While, ast.Try, ast.With)):
+                    for x in ast.walk(s_):
+                        if isinstance(x, ast.Name) and isinstance(x.ctx, ast.Store):
+                            st["bools"].pop(x.id, None)
+                            st["nz"].env.pop(x.id, None)
+                    nxt.append(st)
+                else:
+                    nxt.append(st)
+            states = nxt
+            if len(states) > 512:
+                raise _Undecided("more than 512 paths")
+        return states
+    if ts_ctor is None:
+        ctx.violation("SIGEMIT", "detokenise: a TIME_SIGNATURE token writes a TIME_SIGNATURE event", function=fd.qualname,
+                      construct="the TIME_SIGNATURE branch of detokenise writes no TIME_SIGNATURE event",
+                      message="the decoded piece carries no signature change: every bar after it lies on the wrong grid", file=fd.file,
+                      node=(ts_body[0] if ts_body else fd.node))
+    else:
+        _, _, live, _ = T.ts_guard_split(ts_body, droles["cur_time_bar"])
+        try:
+            finals = _sig_states(live, [dict(nz=Normaliser(atom_hook=hook), world={}, bools={}, reached=False, done=False, at=None)], ts_ctor)
+        except _Undecided as e:
+            finals = None
+            ctx.undetermined("SIGEMIT", "detokenise: a changed signature is written", f"{e}: not judged")
+        if finals is not None:
+            import re as _re
+
+            def dkey(w, k):
+                """the `state variable == FIELD(k)` atoms of a world: [(variable, equal?)]"""
+                return [(next(iter(key[1] - {f"FIELD({k})"})), val) for key, val in w.items()
+                        if key[0] == "eq" and f"FIELD({k})" in key[1] and len(key[1]) == 2 and _re.fullmatch(r"\w+", next(iter(key[1] - {f"FIELD({k})"})))]
+            lost, stale, odd = [], [], []
+            for st in finals:
+                w = st["world"]
+                same = all(any(val for _, val in dkey(w, k)) for k in (1, 2))        # both fields known equal to the state in force
+                if not same and not st["reached"]:
+                    lost.append({(k if isinstance(k, str) else "/".join(sorted(map(str, k[1]))) if k[0] == "eq" else str(k[1])): v for k, v in w.items()})
+                for k in (1, 2):
+                    for var, _ in dkey(w, k):
+                        endv = st["nz"].env.get(var)
+                        if endv is None or endv.atoms() != {f"FIELD({k})"}:
+                            stale.append((var, k))
+                if st["reached"]:
+                    n_, d_ = st["at"].norm(kwarg(ts_ctor, "numerator")), st["at"].norm(kwarg(ts_ctor, "denominator"))
+                    if not (n_ == Sym.atom("FIELD(1)") and d_ == Sym.atom("FIELD(2)")):
+                        if not (w.get(("even", "FIELD(1)")) is True and w.get(("even", "FIELD(2)")) is True):
+                            odd.append((n_.canon(), d_.canon()))
+            ctx.check(not lost, "SIGEMIT", f"detokenise: a TIME_SIGNATURE token whose signature differs from the one in force writes an event ({len(finals)} path(s))",
+                      function=fd.qualname, construct="a changed time signature is not written by detokenise on some path",
+                      message=f"conditions under which nothing is written although the signature changes: {lost[:2]}", file=fd.file, node=ts_ctor)
+            ctx.check(not stale, "SIGEMIT", "detokenise: the signature in force is updated from the token before the branch ends", function=fd.qualname,
+                      construct="the signature a TIME_SIGNATURE token is compared with is not updated from the token",
+                      message=f"{sorted(set(stale))[:2]}: compared with field k of the token but not set from it: later tokens are compared with a stale signature",
+                      file=fd.file, node=ts_ctor)
+            ctx.check(not odd, "SIGEMIT", "detokenise: a simplified (halved) signature is written only when numerator and denominator are both even", function=fd.qualname,
+                      construct="detokenise writes a modified signature outside the both-even case",
+                      message=f"written (numerator, denominator) {odd[:2]} on a path that does not establish that both fields are even", file=fd.file, node=ts_ctor)
+
     def d_effect(pr):
         body = dmap[pr]
         if pr == "TIME_SIGNATURE":
